@@ -96,6 +96,8 @@ def check_config(cfg):
         mc = c.metrics_config.detection_config or c.metrics_config.tracking_config
         if mc is not None:
             for k in ("center_distance_thresholds", "plane_distance_thresholds", "iou_2d_thresholds", "iou_3d_thresholds"):
+                if is_num(cfg.get(k)) and getattr(mc, k) != [[cfg[k]] * n]:
+                    return f"metric parameter {k} given as the number {cfg[k]!r} is exposed as {getattr(mc, k)!r}, not as one list holding it once per target label"
                 for row in getattr(mc, k):
                     if not (isinstance(row, list) and len(row) == n and all(is_num(x) for x in row)):
                         return f"accepted configuration exposes metric parameter {k} = {getattr(mc, k)!r}"
@@ -125,7 +127,8 @@ def search(item, seed):
                   dict(max_matchable_radii=2.0), dict(min_point_numbers=[0, 0]), dict(confidence_threshold=0.5), dict(evaluation_task="foo"),
                   dict(evaluation_task="sensing"), dict(evaluation_task="tracking"), dict(max_x_position=None, max_y_position=None, max_distance=50.0, min_distance=[0.0, 1.0, 2.0]),
                   dict(max_x_position=None, max_y_position=None, max_distance=50.0, min_distance=[0.0, 1.0]), dict(center_distance_thresholds=[["a", "b", "c"]]),
-                  dict(iou_2d_thresholds=[[0.5, 0.5]])):
+                  dict(iou_2d_thresholds=[[0.5, 0.5]]), dict(iou_2d_thresholds=0.0), dict(center_distance_thresholds=0), dict(plane_distance_thresholds=2.5),
+                  dict(iou_3d_thresholds=0.0, evaluation_task="tracking")):
         d = dict(base)
         d.update(extra)
         variants.append(d)
